@@ -6,7 +6,7 @@ correspondence  TransformationQuery(...).sparql() of /repo, read back into a lis
                 renaming of variables); verdicts of rdflib on the generated query, of
                 rdflib and of an independent matcher on the query flattened to a plain
                 basic graph pattern (whole and per component), and of the proved
-                decision procedure Bgp.matchc on the model's conjuncts over the same graph
+                decision procedure Bgp.matcho on the model's conjuncts over the same graph
 oracle          `assignable`: the property's sentence evaluated by brute force on the
                 implementation's graph, independent of the generated patterns; plus
                 self-match, monotonicity, absence and vocabulary checks
@@ -1027,11 +1027,27 @@ def bgp_match(g, root, conjs, gvar) -> bool:
                     if e is not None:
                         yield e
 
-    def go(k, env):
-        if k == len(conjs):
-            return True
-        return any(go(k + 1, e) for e in exts(env, conjs[k]))
+    def cvars(c):
+        tps = [c[1:]] if c[0] == "tp" else c[1]
+        return [t[1] for s_, _, o in tps for t in (s_, o) if t[0] == "var"]
+
     env0 = {gvar[1]: root} if gvar is not None else {}
+    # cheapest-first order: fewest unbound variables, connected conjuncts preferred
+    rest, order, bound = list(conjs), [], set(env0)
+    while rest:
+        def score(c):
+            vs = cvars(c)
+            unb = sum(1 for v in vs if v not in bound)
+            return 0 if unb == 0 else 2 * unb + (0 if any(v in bound for v in vs) else 1)
+        best = min(range(len(rest)), key=lambda i: (score(rest[i]), i))
+        c = rest.pop(best)
+        order.append(c)
+        bound.update(cvars(c))
+
+    def go(k, env):
+        if k == len(order):
+            return True
+        return any(go(k + 1, e) for e in exts(env, order[k]))
     return go(0, env0)
 
 
@@ -1233,7 +1249,7 @@ Definition obs (H : hier) (Gs : list graph) (sw : switches) (unfold : bool) (T :
   | Ok sk =>
       let q := gen H sw sk in
       [0; b2n (completeb sk); length q; length Gs]
-      :: map (fun G => [b2n (matchc G (pre_part H sw sk)); b2n (matchc G (flow_part H sw sk))]) Gs
+      :: map (fun G => [b2n (matcho G (pre_part H sw sk)); b2n (matcho G (flow_part H sw sk))]) Gs
       ++ map epat q
       ++ map epat (gen_clauses (ty_bag_of_pinned H (sk_ty sk)))
   | Cycle => [[1]]
@@ -1744,6 +1760,38 @@ def build_world(rng, n_lang, wf_per_lang, per_wf, stats):
     return world
 
 
+def witness_world():
+    """The instance of props/C11.v (e_match, e_nomatch, e_absent, e_pinned_self_refuted) on the
+    implementation: A > B, C; a2b = f0 : A -> B, b2c = f1 : B -> C, unused f2 : C -> A;
+    workflow  b2c (a2b (- : A));  tasks  [C, b2c, [a2b, [A]]],  wrong order,  absent operator."""
+    from rdflib import Dataset
+    A, B, Cc, TOP = (5, []), (6, []), (7, []), (0, [])
+    L = Lang11(C.Hierarchy({6: 5}, {}, 3), [A, B, Cc], True, [
+        {"name": "f0", "params": [A], "result": B, "fparam": None},
+        {"name": "f1", "params": [B], "result": Cc, "fparam": None},
+        {"name": "f2", "params": [Cc], "result": A, "fparam": None}])
+    L.build()
+    W = build_workflow(L, {"kind": "expr", "text": "(f1 (f0 1))", "sources": [A]}, 0)
+    ds = Dataset()
+    g = ds.add_graph(W.root)
+    g += W.graph
+
+    def step(types, ops, frm):
+        return {"types": types, "ops": ops, "from": frm, "input": False}
+    t_self = {"steps": {0: step([Cc], [1], [1]), 1: step([], [0], [2]), 2: step([A], [], [])},
+              "outs": [0], "origin": {0: 0, 1: 1, 2: 2}}
+    t_gen = {"steps": {0: step([TOP], [1], [1]), 1: step([], [0], [])}, "outs": [0], "origin": {0: 0, 1: 1}}
+    t_wrong = {"steps": {0: step([Cc], [0], [1]), 1: step([], [1], [])}, "outs": [0], "origin": {}}
+    t_absent = {"steps": {0: step([Cc], [1], [1]), 1: step([], [2], [])}, "outs": [0], "origin": {}}
+    cases = [{"task": t_self, "sw": {}, "kind": "derived", "home": 0, "parent": None},
+             {"task": t_gen, "sw": {}, "kind": "general:type_up", "home": 0, "parent": 0},
+             {"task": t_wrong, "sw": {}, "kind": "corrupt:swap", "home": 0, "parent": None},
+             {"task": t_absent, "sw": {}, "kind": "absent_op", "home": 0, "parent": None},
+             {"task": t_self, "sw": {"unfold_tree": True, "by_penultimate_output": False}, "kind": "derived",
+              "home": 0, "parent": None}]
+    return (L, [W], ds, cases)
+
+
 def case_payload(L, Ws, case, ob=None, wi=None):
     T = case["task"]
     p = {"language": L.to_json(),
@@ -1796,9 +1844,9 @@ def main(tier: str, seed: int, replay: str | None = None) -> int:
         d = json.loads(open(replay).read())
         world = world_from_payload(d)
     elif tier == "quick":
-        world = build_world(rng, 16, 3, 3, stats)
+        world = [witness_world()] + build_world(rng, 16, 3, 3, stats)
     else:
-        world = build_world(rng, 125, 3, 5, stats)
+        world = [witness_world()] + build_world(rng, 125, 3, 5, stats)
     if replay:
         # a replay is diagnostic: keep the evidence of the last full run
         ev = C.EVID / f"{PID}.json"
@@ -1881,7 +1929,17 @@ def run(rep, world, stats, tier, rng) -> int:
         evalmaps.append(emap)
         blocks.append(("\n".join(txt) + "\n", nev))
     t1 = time.time()
-    outs = C.coq_eval_blocks(f"{PID}_{tier}", HDR, blocks, nfiles=4)
+    import subprocess
+    try:
+        outs = C.coq_eval_blocks(f"{PID}_{tier}", HDR, blocks, nfiles=4,
+            timeout=300 if tier != "thorough" else 1500)
+    except subprocess.TimeoutExpired:
+        rep.violation("model_timeout", {"kind": "model", "what": "evaluating the model in Coq timed out "
+            "(search explosion in the matcher on some generated case); nothing was compared"},
+            has_input=False)
+        rep.coverage.update({"evaluations": 0, "distinct_nontrivial": 0, "rule": "model evaluation timed out",
+            "samples": []})
+        return rep.finish(C.TRUSTED)
     t_model = time.time() - t1
     # ---- compare
     n_eval = n_pairs = dis = 0
@@ -2034,7 +2092,7 @@ def run(rep, world, stats, tier, rng) -> int:
                 p2 = dict(pay, workflow_index=wi, workflow=W.text, verdicts={
                     "rdflib_generated_query": impl, "plain_bgp_own_matcher": own,
                     "plain_bgp_rdflib": {k: v[wi] for k, v in ob["flat"].items()},
-                    "model_matchc": {"all": mv, "pre": mpre, "flow": mflow},
+                    "model_matcho": {"all": mv, "pre": mpre, "flow": mflow},
                     "assignable": spec_b, "assignment": spec, "assignable_by_is_subtype": strict},
                     graph_invariants_broken=inv[wi])
                 if len(samples) < 4 and spec_b and len(reachable(T)) >= 3 and wi == case["home"]:
@@ -2079,7 +2137,7 @@ def run(rep, world, stats, tier, rng) -> int:
                 if same and (mv != own["all"] or mpre != own["pre"] or mflow != own["flow"]):
                     dis += 1
                     viol(f"matchb_{li}_{ci}_{wi}", dict(p2, kind="correspondence",
-                        what="Bgp.matchc on the model's conjuncts and the matcher on the implementation's disagree"),
+                        what="Bgp.matcho on the model's conjuncts and the matcher on the implementation's disagree"),
                         has_input=False)
                 own_all[(ci, wi)] = own["all"]
                 # metamorphic checks
